@@ -143,7 +143,12 @@ class Case(object):
                 kw = {}
                 if cfg['sampler'] is not None:
                     kw['sampling_calculator'] = (lambda r: (lambda category, size, recording: r))(cfg['sampler'])
-                cass.append(fake.cassette(cfg['tag'], key_prefix=cfg['prefix'], read_only=cfg['read_only'], transient=cfg['transient'],
+                if cfg['read_only'] and (self.seed + len(cass)) % 3 == 0:
+                    # read-only by the documented DEFAULT: the argument is left out (whatever else is passed, e.g. transient=True)
+                    self.ctx.count('cassettes_read_only_by_default')
+                else:
+                    kw['read_only'] = cfg['read_only']
+                cass.append(fake.cassette(cfg['tag'], key_prefix=cfg['prefix'], transient=cfg['transient'],
                                           cls=archive_cls() if cfg.get('layout') else None, **kw))
             by_tag = {cfg['tag']: cfg for cfg in self.configs}
             log_start = len(fake.log)
@@ -255,8 +260,17 @@ class Case(object):
                     elif op == 'close':
                         c.close()
                     elif op == 'exit':
-                        with c:
-                            pass
+                        if r % 2:
+                            # the with block is left by an exception (a failing assertion, a service error, an interrupt)
+                            exc = (KeyError, ZeroDivisionError, KeyboardInterrupt)[r % 3]
+                            try:
+                                with c:
+                                    raise exc('the block fails')
+                            except exc:
+                                ctx.count('context_manager_exits_by_exception')
+                        else:
+                            with c:
+                                pass
                 except AssertionError:
                     ctx.count('write_refused_read_only')
                 except Exception as ex:
